@@ -478,3 +478,4 @@ MANIFEST = {
 }
 
 MANIFEST['text'] += ' Two further layers feed a 9 KB - 300 KB first part with every cut in its tail, and forms of 300 - 2500 fields in six divisions.'
+MANIFEST['text'] += ' The WSGI layer also reads through connections that answer every read short (one byte, half, one byte less) for every buffer size.'
